@@ -42,6 +42,9 @@ CATALOG = [
     # a later scope that does not mention a key set by an earlier, closed scope must see the base value for it
     [["open", [[DS, "m"]]], ["close"], ["open", [[TS, True]]], ["read", DS], ["close"]],
     [["open", [[LC, True]]], ["raise"], ["open", [[DS, "n"]]], ["read", LC], ["close"]],
+    # a scope that overrides nothing is a scope all the same: it closes, and later scopes on the thread (or on a thread reusing the ident) open
+    [["open", []], ["read", DS], ["close"], ["open", [[DS, "p"]]], ["read", DS], ["close"]],
+    [["open", []], ["raise"], ["open", [[TS, True]]], ["read", TS], ["close"], ["read", TS]],
 ]
 
 
